@@ -196,7 +196,7 @@ class Interp:
                             pt, po = (wl if op.get('internal') else list(work.inputs) or wl), list(other.inputs)
                         if pt and po:
                             t, o = pt[a % len(pt)], po[b % len(po)]
-                            if (right and t in this) or (not right and o in oth):
+                            if not op.get('rep_ok') and ((right and t in this) or (not right and o in oth)):
                                 continue
                             this.append(t)
                             oth.append(o)
@@ -408,11 +408,14 @@ def make_machine(tier, hooks):
               variant=st.sampled_from(['connect_circuit', 'connect_circuit', 'connect_circuit', 'connect_left', 'connect_right',
                                        'connect_inputs', 'extend', 'extend_explicit', 'add_circuit']),
               pairs=st.lists(st.tuples(I, I).map(list), max_size=3), name=NAMES, add_prefix=st.booleans(), x=I,
-              on=I, og=st.lists(st.tuples(I, I, I).map(list), max_size=4), oo=st.lists(I, max_size=2))
-        def connect(self, c, j, from_pool, right, internal, variant, pairs, name, add_prefix, x, on, og, oo):
+              on=I, og=st.lists(st.tuples(I, I, I).map(list), max_size=4), oo=st.lists(I, max_size=2), rep=st.integers(0, 5))
+        def connect(self, c, j, from_pool, right, internal, variant, pairs, name, add_prefix, x, on, og, oo, rep):
+            if rep == 0 and pairs:
+                # the same connector pair listed twice (a repeated replaced gate is to be refused, not half-accepted)
+                pairs = pairs + [pairs[0]]
             self._do({'op': 'connect', 'c': c, 'j': j, 'from_pool': from_pool, 'right': right, 'internal': internal,
                       'variant': variant, 'pairs': pairs, 'name': name, 'add_prefix': add_prefix, 'x': x,
-                      'on': on, 'og': og, 'oo': oo})
+                      'on': on, 'og': og, 'oo': oo, 'rep_ok': rep <= 1})
 
         @rule(c=I, roots=st.lists(I, min_size=1, max_size=2), grow=st.lists(I, max_size=4),
               form=st.sampled_from(['dnf', 'rm', 'chain']), label_mode=st.sampled_from(['fresh', 'same_boundary']),
